@@ -5,12 +5,14 @@ import (
 	"context"
 	"crypto/sha256"
 	"encoding/hex"
+	"encoding/json"
 	"fmt"
 	"io/fs"
 	"os"
 	"os/exec"
 	"path/filepath"
 	"sort"
+	"strconv"
 	"strings"
 	"syscall"
 	"time"
@@ -267,4 +269,25 @@ func ShellQuote(s string) string {
 		return s
 	}
 	return "$'" + strings.NewReplacer("\\", "\\\\", "'", "\\'", "\n", "\\n", "\t", "\\t", "\r", "\\r", "\f", "\\f", "\x0b", "\\v", "\x00", "\\x00", "\x01", "\\x01", "\x7f", "\\x7f", "\xff", "\\xff").Replace(s) + "'"
+}
+
+// Bytes is a string that survives encoding/json unchanged even when it is not valid UTF-8: it travels as a
+// Go-quoted ASCII literal (workers report their results as JSON).
+type Bytes string
+
+func (b Bytes) MarshalJSON() ([]byte, error) {
+	return json.Marshal(strconv.QuoteToASCII(string(b)))
+}
+
+func (b *Bytes) UnmarshalJSON(data []byte) error {
+	var q string
+	if err := json.Unmarshal(data, &q); err != nil {
+		return err
+	}
+	u, err := strconv.Unquote(q)
+	if err != nil {
+		return err
+	}
+	*b = Bytes(u)
+	return nil
 }
